@@ -3,6 +3,7 @@ package pts
 import (
 	"bufio"
 	"errors"
+	"fmt"
 	"io"
 	"strconv"
 	"strings"
@@ -48,13 +49,20 @@ func ReadPointCloud(in io.Reader) (*modeling.Mesh, error) {
 	readColor := false
 
 	curLine := 0
-	for scanner.Scan() && curLine < parsedCount {
+	columns := -1
+	for curLine < parsedCount && scanner.Scan() {
 		line := strings.TrimSpace(scanner.Text())
 		if line == "" {
 			return nil, errors.New("encountered empty line in pts")
 		}
 
 		contents := strings.Fields(line)
+		if columns == -1 {
+			columns = len(contents)
+		}
+		if len(contents) < 3 || len(contents) != columns {
+			return nil, fmt.Errorf("pts line %d has %d columns, expected %d", curLine+1, len(contents), columns)
+		}
 
 		if len(contents) > 2 {
 			pos, err := ParseVec3(contents[0], contents[1], contents[2])
@@ -87,6 +95,10 @@ func ReadPointCloud(in io.Reader) (*modeling.Mesh, error) {
 
 	if scanner.Err() != nil {
 		return nil, scanner.Err()
+	}
+
+	if curLine < parsedCount {
+		return nil, fmt.Errorf("pts declares %d points but only contains %d: %w", parsedCount, curLine, io.ErrUnexpectedEOF)
 	}
 
 	v3Data := make(map[string][]vector3.Float64)
